@@ -2,6 +2,7 @@ SPECIFICATION Spec
 CONSTANTS
   MaxFields = 2
   EscAbsCheck = FALSE
+  DupCheck = TRUE
   RangeCheck = TRUE
 INVARIANT Total
 INVARIANT Rejects
